@@ -150,6 +150,19 @@ def run(chk):
         if r1 != r2 or r1[0] != "ok":
             chk.violation("C05|pcDelta|bins=0", f"pcDelta(bins=0) = {r1} differs from pc = {r2}", {"xs": xs, "xs2": ys})
 
+    # bins = 0 is pc OF THE SAME ARGUMENTS also for tables with further columns (rows coincide when ALL columns agree), for metrics
+    # under which distinct elements are at distance 0, and whatever maxseqs says
+    import pandas as _pd0
+    t0 = _pd0.DataFrame({"TRBV": ["TRBV1", "TRBV2", "TRBV1", "TRBV3", "TRBV1"], "CDR3B": ["CASSF", "CASSF", "CASSF", "CASSL", "CASSF"]})
+    zero_metric = lambda a_, b_: 0  # noqa: E731
+    for label0, r1_, r2_ in (("table-with-V-column", lambda: float(ds.pcDelta(t0, bins=0)), lambda: float(st.pc(t0))),
+                             ("table-with-V-column-cross", lambda: float(ds.pcDelta(t0, t0.iloc[:3], bins=0)), lambda: float(st.pc(t0, t0.iloc[:3]))),
+                             ("maxseqs", lambda: float(ds.pcDelta(["CA", "CA", "CB", "CC", "CA", "CB"], bins=0, maxseqs=3)),
+                              lambda: float(st.pc(["CA", "CA", "CB", "CC", "CA", "CB"])))):
+        r1, r2 = core.call_real(r1_), core.call_real(r2_)
+        chk.case(nontrivial_key=("bins0", label0))
+        if r1 != r2 or r1[0] != "ok":
+            chk.violation(f"C05|pcDelta|bins=0|{label0}", f"pcDelta(bins=0) = {r1} differs from pc of the same arguments = {r2} ({label0})", {"case": label0})
     ans = core.run_driver_parallel(ops)
     for (kind, meta, real, _), a, op in zip(checks, ans, ops):
         if a[0] != "ok":
